@@ -76,6 +76,54 @@ let cres_s = function
   | RUnit b -> "unit,b" ^ b01 b
 let unit_s = function ULine b -> "L:" ^ hex b | UData b -> "D:" ^ hex b
 
+(* ---- oracle plumbing for the address model ---- *)
+let alnum_tbl : (int * int) array ref = ref [||]
+let load_alnum () =
+  if Array.length !alnum_tbl = 0 then begin
+    let path = try Sys.getenv "VERIF_ALNUM" with Not_found -> "/verif/.cache/alnum.txt" in
+    let ic = open_in path in
+    let l = ref [] in
+    (try while true do
+       let line = input_line ic in
+       match String.split_on_char ' ' line with
+       | [a; b] -> l := (int_of_string a, int_of_string b) :: !l
+       | _ -> ()
+     done with End_of_file -> ());
+    close_in ic;
+    alnum_tbl := Array.of_list (List.rev !l)
+  end
+let alnum_fn (c : n) : bool =
+  load_alnum ();
+  let v = int_of_n c in
+  let t = !alnum_tbl in
+  let lo = ref 0 and hi = ref (Array.length t - 1) and found = ref false in
+  while not !found && !lo <= !hi do
+    let mid = (!lo + !hi) / 2 in
+    let (a, b) = t.(mid) in
+    if v < a then hi := mid - 1 else if v > b then lo := mid + 1 else found := true
+  done;
+  !found
+let ustr_of_hex (h : Stdlib.String.t) : n list =
+  match utf8_decode (unhex h) with Some s -> s | None -> failwith "invalid utf8"
+let uhex (s : n list) : Stdlib.String.t = hex (utf8 s)
+let aerr_s = function MissingParts -> "MissingParts" | InvalidUser -> "InvalidUser" | InvalidDomain -> "InvalidDomain"
+let addr_res = function
+  | Ok a -> Printf.sprintf "ok\t%s\t%s" (uhex a.a_user) (uhex a.a_domain)
+  | Err e -> "err\t" ^ aerr_s e
+  | Panic -> "panic"
+(* oracle answers supplied on the request line: idna(domain), ip(strip domain), ip(strip idna(domain)) *)
+let mk_oracles (dom : n list) (idna_h : Stdlib.String.t) (ip1 : Stdlib.String.t) (ip2 : Stdlib.String.t) =
+  let idna_ans = if idna_h = "!" then None else Some (ustr_of_hex idna_h) in
+  let idna x = if x = dom then idna_ans else None in
+  let ip_ok x =
+    if x = strip_brackets dom then ip1 = "1"
+    else (match idna_ans with Some d' when x = strip_brackets d' -> ip2 = "1" | _ -> false) in
+  (idna, ip_ok)
+let rec last_at (s : n list) : n list =
+  (* part after the last '@' (whole string if none) *)
+  let rec go l acc = match l with [] -> acc | c :: r -> if int_of_n c = 64 then go r r else go r acc in
+  go s s
+
 let dispatch (f : Stdlib.String.t list) : Stdlib.String.t =
   match f with
   | ["codec.encode"; st; m] ->
@@ -103,6 +151,17 @@ let dispatch (f : Stdlib.String.t list) : Stdlib.String.t =
       Printf.sprintf "%s\t%s\t%s"
         (match c with Ok i -> info_s i | Err e -> err_s e | Panic -> "panic")
         (String.concat ";" (List.map cres_s rs)) (String.concat ";" (List.map unit_s us))
+  | ["addr.from_str"; h; idn; ip1; ip2] ->
+      (match utf8_decode (unhex h) with
+       | None -> "invalid-utf8"
+       | Some s -> let (idna, ip_ok) = mk_oracles (last_at s) idn ip1 ip2 in
+                   addr_res (addr_from_str alnum_fn idna ip_ok s))
+  | ["addr.new"; u; d; idn; ip1; ip2] ->
+      (match utf8_decode (unhex u), utf8_decode (unhex d) with
+       | Some u, Some d -> let (idna, ip_ok) = mk_oracles d idn ip1 ip2 in
+                           addr_res (addr_new alnum_fn idna ip_ok u d)
+       | _, _ -> "invalid-utf8")
+  | ["spec.xdec"; h] -> (match xdec (unhex h) with Some o -> "ok\t" ^ hex o | None -> "err")
   | fn :: _ -> "UNKNOWN-FN " ^ fn
   | [] -> "EMPTY"
 
